@@ -47,6 +47,8 @@ probes! {
     sp_q22 => "spelling.pair_pair",
     sp_arr => "spelling.array",
     sp_sub => "spelling.sub_assign",
+    sp_px => "spelling.generic_width_PxE2_operands_into_Q32E2",
+    sp_px_narrow => "spelling.generic_width_PxE2_N_le_16",
     // ---- reach probes computed from the reference state
     terms_effective => "probe.effective_terms",
     neg_sum => "probe.negative_sum",
@@ -93,6 +95,7 @@ probes! {
     load_maxpos => "probe.load_pm_maxpos",
     load_nar => "probe.load_nar",
     load_zero => "probe.load_zero",
+    load_px => "probe.load_through_generic_width_PxE2",
     split_p2 => "probe.split_p2_nonzero",
     split_p3 => "probe.split_p3_nonzero",
     split_neg => "probe.split_of_negative_sum",
